@@ -83,6 +83,21 @@ pub fn check(case: &Case, out: &RunOutput) -> Verdict {
         Family::C16 => c16::check(&v, &mut vd),
         Family::C17 => c17::check(&v, &mut vd),
     }
+    // a panic that the harness did not inject (inside the library, or in a client task that called
+    // into it) is never an acceptable outcome of an operation; C02 and C06 have their own rule
+    if !matches!(case.family, Family::C02 | Family::C06) {
+        for (tag, msg) in &v.flags.foreign_panics {
+            vd.fail(format!("{}/panic", case.family.id()), format!("task {tag} panicked: {msg}"));
+        }
+    }
+    // inconsistencies noticed by the harness itself while it used a handle the library handed out
+    for e in v.hist {
+        if let crate::history::EvKind::Note(n) = &e.kind {
+            if let Some(rest) = n.strip_prefix("INCONSISTENT ") {
+                vd.fail(format!("{}/handed_out_handle_inconsistent", case.family.id()), format!("at {}: {rest}", e.stamp));
+            }
+        }
+    }
     vd
 }
 
